@@ -2,6 +2,7 @@ import TsVerif.C02.Props
 import TsVerif.C02.EditProps
 import TsVerif.C02.BalanceProps
 import TsVerif.C02.BalanceSumm
+import TsVerif.C02.WidthProps
 #print axioms TsVerif.C02.summarize_padding_size
 #print axioms TsVerif.C02.spans_nested
 #print axioms TsVerif.C02.siblings_ordered
@@ -39,3 +40,7 @@ import TsVerif.C02.BalanceSumm
 #print axioms TsVerif.C02.compressGo_face
 #print axioms TsVerif.C02.balanceNode_face
 #print axioms TsVerif.C02.balance_summarized
+#print axioms TsVerif.C02.enum_le_desc
+#print axioms TsVerif.C02.desc_lt_size
+#print axioms TsVerif.C02.counts_fit
+#print axioms TsVerif.C02.counts_fit_32
